@@ -4,7 +4,7 @@
     of a graph by a, its sizes by b and its rates by r; [evmap a] the times of the events `demes` reports. *)
 From Coq Require Import ZArith QArith Reals List Bool Arith Lra Lia Permutation.
 From Dadi Require Import Base.Num Base.NumR Base.NumQ Model.DemesFront
-     Proofs.DemesBase Proofs.DemesRescale Proofs.DemesUnits Proofs.DemesOrder Proofs.DemesExport.
+     Proofs.DemesBase Proofs.DemesRescale Proofs.DemesUnits Proofs.DemesOrder Proofs.DemesExport Proofs.DemesPulse.
 Import ListNotations.
 Local Open Scope R_scope.
 
@@ -96,6 +96,47 @@ Theorem C16_ancient_sample_is_frozen_branch : forall ws pnu gt (g : graph R) sam
          evs (sampled_names l) (frozen_names l) Ne ns.
 Proof. exact ancient_is_frozen_branch. Qed.
 Print Assumptions C16_ancient_sample_is_frozen_branch.
+
+(** pulse_source_order_irrelevant: a pulse is a set of (source, proportion) pairs - listing the pairs in another order
+    gives the same call of the in-place pulse function (each proportion lands at the position of the source it is listed
+    WITH), for 2..5 populations *)
+Theorem C16_pulse_source_order_irrelevant : forall srcs props srcs' props' dst (s : st R),
+  NoDup srcs -> ~ In dst srcs -> length srcs = length props -> length srcs' = length props' ->
+  Permutation (combine srcs props) (combine srcs' props') ->
+  apply_event (EPulse srcs dst props) s = apply_event (EPulse srcs' dst props') s.
+Proof. exact pulse_source_order_irrelevant. Qed.
+Print Assumptions C16_pulse_source_order_irrelevant.
+
+(** ... hence the same program of the whole importer: [same_but_pulse_listing g g'] - the same demes and migrations, pulses
+    at the same times; [tev_equiv] - the same events up to the listing order of the pairs of the pulses *)
+Theorem C16_pulse_listing_same_program : forall ws pnu gt (g g' : graph R) sampled times new_ids sizes evs evs' Ne ns,
+  same_but_pulse_listing g g' -> Forall2 tev_equiv evs evs' ->
+  front ws pnu gt g sampled times new_ids sizes evs Ne ns = front ws pnu gt g' sampled times new_ids sizes evs' Ne ns.
+Proof. exact front_pulse_listing_irrelevant. Qed.
+Print Assumptions C16_pulse_listing_same_program.
+
+(** pairing the listed proportions with the source positions in POPULATION order instead (sources listed youngest first)
+    exchanges the proportions between the sources *)
+Theorem C16_pairing_by_population_order_refuted : exists (props : list R) sis sorted_sis,
+  Permutation sis sorted_sis /\ NoDup sis /\ length sis = length props /\
+  sorted_props props sorted_sis (Some 1%nat) 3 <> sorted_props props sis (Some 1%nat) 3.
+Proof. exact pairing_by_population_order_refuted. Qed.
+
+(** non-vacuity: three populations (ids 5, 6, 7), destination 6, sources listed (7, 5) with proportions (1/4, 1/8) or
+    (5, 7) with (1/8, 1/4): the hypotheses hold and both give phi_3D_admix_1_and_3_into_2(phi, 1/8, 1/4) *)
+Example C16_pulse_nonvacuous :
+  let s := mkSt (F:=Q) [5; 6; 7]%nat [] true in
+  Permutation (combine [7; 5]%nat [(1 # 4)%Q; (1 # 8)%Q]) (combine [5; 7]%nat [(1 # 8)%Q; (1 # 4)%Q]) /\ NoDup [7; 5]%nat /\ ~ In 6%nat [7; 5]%nat /\
+  map (fun c => (c_fn c, c_fs c)) (s_calls (apply_event (EPulse [7; 5]%nat 6%nat [(1 # 4)%Q; (1 # 8)%Q]) s))
+    = [(F_pulse 3 2, [(1 # 8)%Q; (1 # 4)%Q])] /\
+  s_calls (apply_event (EPulse [5; 7]%nat 6%nat [(1 # 8)%Q; (1 # 4)%Q]) s) = s_calls (apply_event (EPulse [7; 5]%nat 6%nat [(1 # 4)%Q; (1 # 8)%Q]) s).
+Proof.
+  cbv zeta. split; [apply perm_swap|]. split; [|split; [|split]].
+  - constructor; [intros [H|[]]; discriminate|]. constructor; [intros []|constructor].
+  - intros [H|[H|[]]]; discriminate.
+  - vm_compute. reflexivity.
+  - vm_compute. reflexivity.
+Qed.
 
 (** slice_preserves_size_functions: DemesUtil.slice at t (used when every sample is ancient) keeps every deme that is
     older than t, with its size function on [t, inf) shifted by t - whatever the kind of the epoch that reaches t and
